@@ -1037,7 +1037,8 @@ class _Gen:
         for j in range(len(params) - ndef, len(params)):
             p, kind_p, _ = params[j]
             params[j] = (p, kind_p, True)
-            defaults[p] = self.lo_s(lex, 1)
+            # defaults are evaluated inside the call: like the body they never call self.b() / super()
+            defaults[p] = self.lo_s(lex.child(blocks=[], super_ok=False), 1)
         caller = self.weighted([(None, 3), (0, 2), (1, 2)])
         # a macro body never calls self.b() / super(): blocks call macros, so that could recurse
         c = lex.child(toplevel=False, emit_hi=result_hi, macro_kind=kind, caller=caller, loop=False, blocks=[], super_ok=False)
